@@ -42,22 +42,98 @@ HDR = ("From Coq Require Import List ZArith Bool.\n"
 OKDEF = "Definition ok (h : hcase) : bool := let '(c, from0, ops, xs) := h in chk c (init from0) ops xs.\n"
 
 
-def run_harness(ctx):
-    n = os.environ.get("VERIF_W_N")
-    env = {"VERIF_W_N": n} if n else None
-    rc, out, trace = core.harness_pkg(ctx, "alephium_watcher", "^TestVerifWatcher$", env=env, timeout=1500, race=(ctx.tier == "thorough"))
-    allrows = core.read_jsonl(trace)
-    rows = [r for r in allrows if r.get("k") == "hist"]
-    if rc != 0 or not rows:
-        ctx.problem("correspondence", "go harness (alephium watcher)", out[-1500:])
+def parse_crash(out):
+    """a `go test` output that ends in a Go panic / fatal error: (panic value, innermost pkg/alephium frames, receiver pointers of those frames)"""
+    import re
+    m = re.search(r'^(panic: .*|fatal error: .*)$', out, re.M)
+    if not m:
         return None
+    value = m.group(1).strip()
+    # `panic: X [recovered]` lines may precede; take the goroutine dump that follows
+    dump = out[m.start():]
+    g = re.search(r'^goroutine \d+ \[running\]:\n((?:.*\n)*?)(?:\n|\Z)', dump, re.M)
+    body = g.group(1) if g else dump[:4000]
+    frames, ptrs = [], []
+    lines = body.split("\n")
+    for k, l in enumerate(lines):
+        if "/pkg/alephium." in l and not l.startswith("\t"):
+            where = lines[k + 1].strip().split(" +")[0] if k + 1 < len(lines) else ""
+            fn = l.split("/pkg/alephium.", 1)[1]
+            frames.append("%s at %s" % (re.sub(r'\(0x[0-9a-f, {}x.?]*\)$', '(...)', fn), where.replace("/repo/", "").split("node/pkg/alephium/")[-1]))
+            ptrs += re.findall(r'0x[0-9a-f]{6,}', l)
+    return value, frames[:6], ptrs
+
+
+def harness_once(ctx, env):
+    n = os.environ.get("VERIF_W_N")
+    e = dict(env or {})
+    if n and "VERIF_W_N" not in e:
+        e["VERIF_W_N"] = n
+    rc, out, trace = core.harness_pkg(ctx, "alephium_watcher", "^TestVerifWatcher$", env=e or None, timeout=1500, race=(ctx.tier == "thorough"))
+    return rc, out, core.read_jsonl(trace)
+
+
+def run_harness(ctx):
+    """runs the harness; a run that died of a panic in one of the watcher's own goroutines (Watcher.Run starts them bare) is itself
+    a finding: it is reported with the panic value, the innermost pkg/alephium frames and the scenario being fed (progress
+    markers), and the scenarios that had not finished are run again without the crashing one"""
+    rc, out, allrows = harness_once(ctx, None)
+    rows = [r for r in allrows if r.get("k") == "hist"]
+    prog = [r for r in allrows if r.get("k") == "progress"]
+    phases = {r["phase"] for r in prog}
+    crashes = []
+    rounds = 0
+    while rc != 0 and "histories-done" in phases and rounds < 4:
+        rounds += 1
+        cr = parse_crash(out)
+        started = {r["id"]: r for r in allrows if r.get("k") == "progress" and r.get("phase") == "run"}
+        done = {r["id"] for r in allrows if r.get("k") == "run"}
+        unfinished = [i for i in started if i not in done]
+        if cr is None or not unfinished:
+            break
+        value, frames, ptrs = cr
+        culprit = [i for i in unfinished if started[i].get("watcher") in ptrs]
+        cand = culprit or unfinished
+        crashes.append({"panic": value, "frames": frames, "scenarios": [started[i] for i in cand], "identified": bool(culprit)})
+        ctx.say("harness process died (%s) while free-run scenario(s) %s were running; re-running the unfinished scenarios without %s" % (value, sorted(unfinished), sorted(cand)))
+        skip = sorted({s["id"] for c in crashes for s in c["scenarios"]})
+        # scenarios that were never started are not known by id here: run everything that has no row yet, except the culprits
+        env = {"VERIF_W_N": "0", "VERIF_W_NFH": "0" if "fetch-height-done" in phases else "1", "VERIF_W_SKIPRUN": ",".join(str(i) for i in sorted(set(skip) | done))}
+        rc, out, more = harness_once(ctx, env)
+        allrows = [r for r in allrows if not (r.get("k") == "progress" and r.get("phase") == "run" and r["id"] not in done)] + more
+        phases |= {r["phase"] for r in more if r.get("k") == "progress"}
+    if not rows or (rc != 0 and not crashes):
+        cr = parse_crash(out)
+        if cr and rows:
+            ctx.problem("monitor", "the test process running the watcher died: %s; innermost frames: %s" % (cr[0], "; ".join(cr[1]) or "(none in pkg/alephium)"),
+                        "go test output", concrete=False, key="process-crash")
+        else:
+            ctx.problem("correspondence", "go harness (alephium watcher)", out[-1500:])
+        if not rows:
+            return None
+    ctx.crashes = crashes
     hp = [r for r in allrows if "harness_panic" in r]
     if hp:
         ctx.problem("machinery", "harness panic", hp[0]["harness_panic"])
     # free-running scenarios (the real Watcher.Run): judged by their monitors only
     ctx.free_runs = [r for r in allrows if r.get("k") == "run" and "harness_panic" not in r]
     ctx.fh_rows = [r for r in allrows if r.get("k") == "fh"]
+    ctx.cov["harness_process_crashes"] = [{"panic": c["panic"], "frames": c["frames"], "scenarios": [s["id"] for s in c["scenarios"]]} for c in crashes]
     return [r for r in rows if "harness_panic" not in r]
+
+
+def report_crashes(ctx):
+    """C09: a panic in one of the watcher's goroutines ends the process ("never crashes the watcher")"""
+    for c in getattr(ctx, "crashes", [])[:2]:   # (all of them are listed in coverage.harness_process_crashes)
+        ids = [s["id"] for s in c["scenarios"]]
+        sc = c["scenarios"][0]
+        suspects = [e for e in sc["stream"] if e.get("names_token_contract_with_answer_shape") not in (None, "ok", "native")]
+        ctx.problem("monitor", "free run %s of the real Watcher.Run: the process died with `%s` in a goroutine started by Run; innermost frames: %s%s"
+                    % (ids if len(ids) > 1 else ids[0], c["panic"], "; ".join(c["frames"]),
+                       ("; attestation-shaped events of the stream naming contracts with unusual answers: %s"
+                        % [(e["index"], e["names_token_contract_with_answer_shape"]) for e in suspects][:6]) if suspects else ""),
+                    "go test died; scenario identified by the watcher pointer in the goroutine dump" if c["identified"] else "go test died; scenarios running at that moment",
+                    concrete=True, replay={"monitor": "process crash: " + c["panic"], "frames": c["frames"], "scenarios_running": c["scenarios"]}, key="process-crash")
 
 
 def replay_of(row, msg):
